@@ -46,6 +46,18 @@ Theorem C01_gregory_counts_terminate_partial : forall A cfg r pr fuel,
 Proof. exact count_terminates. Qed.
 Print Assumptions C01_gregory_counts_terminate_partial.
 
+(* wigm with defeat_batch=zero too: the zero-vote batch is non-empty as soon as the arithmetic's == is reflexive, which it is
+   in all three families (fixed/integer, guarded with any guard, rational) *)
+Theorem C01_wigm_counts_terminate_any_option_partial : forall A cfg pr fuel, (forall x : T A, eqv A x x = true) ->
+  NoDup (map pc_cid (pr_cands pr)) -> (2 * List.length (pr_cands pr) < Pos.to_nat fuel)%nat ->
+  exists s k, exec (@crashed A) fuel (count_cmd A cfg RWigm) (init_state A cfg pr) = Some (s, k).
+Proof. exact wigm_count_terminates_any_option. Qed.
+Print Assumptions C01_wigm_counts_terminate_any_option_partial.
+Theorem C01_equality_is_reflexive : (forall p d x, eqv (Fixed p d) x x = true) /\ (forall dp x, eqv (Rational dp) x x = true) /\
+  (forall p g d st x, 0 <= g -> eqv (Guarded p g d st) x x = true).
+Proof. exact (conj eqv_refl_fixed (conj eqv_refl_rational eqv_refl_guarded)). Qed.
+Print Assumptions C01_equality_is_reflexive.
+
 (* ... and for meek, warren and meek-prf under the arithmetics with exact comparisons (Fixed, integer, Guarded with guard 0;
    S = 10^p raw units per vote): the iteration inside a round ends because it only goes on while the total surplus -- a
    non-negative raw integer -- strictly decreases, the rounds end because each one elects or excludes somebody.  Fuel bound:
